@@ -21,7 +21,7 @@ def statement(renamed, same_str, enforce_new, new_ovr, old_ovr, new_cs, old_cs, 
     ('or', new, old) marker"""
     if new_ovr:
         return 'role:ovr'
-    if renamed and old_ovr in ('arbitrary', 'prefixref', 'deny'):
+    if renamed and old_ovr in ('arbitrary', 'prefixref', 'deny', 'allow-empty'):
         return ovr_old_value
     if (not enforce_new) and new_cs != old_cs:
         return ('or', new_cs, old_cs)
@@ -56,6 +56,9 @@ def do_job(root, row, new_cs, old_cs, tier):
         files[old_name] = ovr_old_value
     elif old_ovr == 'alias':
         files[old_name] = 'rule:' + new_name
+    elif old_ovr == 'allow-empty':
+        ovr_old_value = ''                # the empty check string (always allow) is an override like any other
+        files[old_name] = ovr_old_value
     elif old_ovr == 'alias-list':
         # the same alias in the list spelling of the rule language
         files[old_name] = [['rule:' + new_name]]
@@ -197,7 +200,7 @@ def _worker(args):
 def all_rows():
     rows = []
     for renamed, same_str, enforce_new, new_ovr, old_ovr, where, shared in itertools.product(
-            [True, False], [True, False], [True, False], [False, True], ['absent', 'arbitrary', 'alias', 'prefixref', 'deny', 'alias-list', 'alias-paren'],
+            [True, False], [True, False], [True, False], [False, True], ['absent', 'arbitrary', 'alias', 'prefixref', 'deny', 'alias-list', 'alias-paren', 'allow-empty'],
             ['main', 'dir', 'both', 'dironly'], [0, 1, 2, 3]):
         if not renamed and old_ovr != 'absent':
             continue        # same-name deprecation: an "old name" override IS a new-name override
